@@ -499,6 +499,8 @@ def segAdd (sg : Seg) (f : Fld) (strict : Bool) : R Seg := do
 /-- `Segment(name, version=…, validation_level=…)` (core.py:1597-1620) -/
 def segmentNew (name : String) : R Seg :=
   let nameU := name.toUpper
+  -- model domain: `str.upper()` of cased non-ASCII letters (e.g. 'ÿ' → 'Ÿ') is not modelled
+  if name.toList.any (fun c => c.toNat > 127) then throw .Unsupported else
   if isZSeg name then pure ⟨nameU, [], [], [], true, 0, 0, []⟩
   else
     match T.segments.find? (·.name == nameU) with
